@@ -4,6 +4,9 @@ CONSTANTS
   Window = 2
   MaxFaults = 0
   FaultKinds <- AllKinds
+  MaxPauses = 0
+  TimeoutTicks = 2
+  MaxTicks = 3
   StopRoles <- BothRoles
 INVARIANTS TypeOK Fidelity NoSilentCorruption NoFalseSuccess CleanRunSucceeds DeleteExact
 PROPERTIES Termination
